@@ -21,7 +21,8 @@ ERROR awkward_Identities_from_RegularArray(
       toptr[(i*size + j)*(fromwidth + 1) + fromwidth] = (ID)(j);
     }
   }
-  for (int64_t k = (fromlength + 1)*size*(fromwidth + 1);
+  // (the rows of the content that lie beyond the last list start right after it)
+  for (int64_t k = fromlength*size*(fromwidth + 1);
        k < tolength*(fromwidth + 1);
        k++) {
     toptr[k] = -1;
